@@ -505,8 +505,9 @@ func gen(a hx.Args) {
 	if thorough {
 		limit = 40000
 	}
-	total, truncated := 0, 0
+	total, truncated, nscen := 0, 0, 0
 	for _, sc := range exhaustiveScenarios(thorough) {
+		nscen++
 		n, complete := explore(sc.c, sc.prefix, limit)
 		total += n
 		if !complete {
@@ -514,6 +515,7 @@ func gen(a hx.Args) {
 		}
 	}
 	fmt.Fprintf(os.Stderr, "c30 gen: %d exhaustive schedules, %d scenarios truncated at %d\n", total, truncated, limit)
+	hx.Emit("meta %d %d %d %d", nscen-truncated, truncated, limit, total)
 	// random full schedules
 	for i := 0; i < a.N(12000, 150000); i++ {
 		kind := "latch"
@@ -563,6 +565,12 @@ func runLine(toks []string) string {
 	var c kase
 	var sch string
 	switch toks[0] {
+	case "meta": // generator bookkeeping: scenarios enumerated completely / truncated at the limit / schedules
+		hx.St.Add("dfs_scenarios_enumerated_completely", int(hx.Atoi(toks[1])))
+		hx.St.Add("dfs_scenarios_truncated_at_limit", int(hx.Atoi(toks[2])))
+		hx.St.Add("dfs_limit_per_scenario", int(hx.Atoi(toks[3])))
+		hx.St.Add("dfs_schedules", int(hx.Atoi(toks[4])))
+		return "ok"
 	case "latch":
 		c, sch = kase{"latch", "", toks[1]}, toks[2]
 	case "ring":
